@@ -589,7 +589,7 @@ func init() {
 				return v
 			}
 			if tier == "thorough" {
-				return 50000
+				return 25000
 			}
 			return 5000
 		},
